@@ -71,6 +71,9 @@ var c11Pins = []c11Pin{
 	{Name: "cue-array-of-uint8", Formats: []string{"cue"},
 		Sexp: `(defs "Root" ("Root" (struct (field "name" (string - - false) true false -) (field "b" (array (int 8 false - -)) true false -))))`,
 		Docs: []string{`{"name":"x","b":[1,2,3]}`}},
+	{Name: "struct-default-overrides-constant-member", Formats: []string{"cue"},
+		Sexp: `(defs "Root" ("Root" (struct (field "name" (string - - false) true false -) (field "value" (ref "Child") false false (o ("items" (n "7.75")) ("opts" (n "-70")))))) ("Child" (struct (field "items" (num 64 - -) true false -) (field "opts" (int 8 true -70 -70) true false -))))`,
+		Docs: []string{`{"name":"x"}`, `{"name":"x","value":{"items":1,"opts":-70}}`}},
 	{Name: "enum-and-nested",
 		Sexp: `(defs "Root" ("Root" (struct (field "e" (ref "Color") true false -) (field "inl" (enumS "p" "q") false false -) (field "list" (array (ref "Node")) true false -) (field "byKey" (dict (ref "Node")) false false -))) ("Color" (enumS "red" "green")) ("Node" (struct (field "v" (int 64 true - -) false false -) (field "next" (ref "Node") false false -))))`,
 		Docs: []string{`{"e":"green","inl":"q","list":[{"v":1,"next":{"v":2}},{}],"byKey":{"k":{"v":3}}}`, `{"e":"red","list":[]}`}},
@@ -237,7 +240,23 @@ func c11OneValued(s *Src) bool {
 // c11At: c01SrcAt, with a one-valued leaf type spelled `const(<type>)`
 func c11At(d *Defs, doc JV, path string) string {
 	at := c01SrcAt(d, doc, path)
-	if n := c11SrcNode(d, doc, path); n != nil && n.Kind != SConst && c11OneValued(n) {
+	n := c11SrcNode(d, doc, path)
+	// a collection of date-time strings: CUE's `time.Time` arrives as a reference to a `Time` object,
+	// so the element is not a scalar for the Python jenny — spell the leaf `datetime`
+	if n != nil && (n.Kind == SArray || n.Kind == SDict) {
+		in := n
+		for i := 0; i < 6 && in != nil && (in.Kind == SArray || in.Kind == SDict); i++ {
+			in = d.resolve(in.Elem)
+		}
+		if in != nil && in.Kind == SString && in.DateTime {
+			if i := strings.LastIndex(at, "/"); i >= 0 {
+				at = at[:i+1] + strings.Replace(at[i+1:], "string", "datetime", 1)
+			} else {
+				at = strings.Replace(at, "string", "datetime", 1)
+			}
+		}
+	}
+	if n != nil && n.Kind != SConst && c11OneValued(n) {
 		if i := strings.LastIndex(at, "/"); i >= 0 {
 			return at[:i+1] + "const(" + at[i+1:] + ")"
 		}
@@ -313,11 +332,9 @@ func c11PyScalar(d *Defs, e *Src) bool {
 	switch e.Kind {
 	case SAny, SBool, SString, SConst, SInt, SNum:
 		return true
-	case SEnumS:
-		return len(e.EnumS) == 1
-	case SEnumI:
-		return len(e.EnumI) == 1
 	}
+	// enums: a kind of their own (a one-member enum is read as a constant by CUE only); this function is
+	// only used to look for the site of an exception that no explicit null explains, so "maybe" is enough
 	return false
 }
 
@@ -563,7 +580,13 @@ func init() {
 				if cd.path == "" {
 					baselineFails[cd.x] = true // raises without any null: the nulls are not to blame
 				} else if !baselineFails[cd.x] {
-					cd.x.blame = append(cd.x.blame, cd.path)
+					// several nulls may raise on their own: the one that raises what the whole document
+					// raised goes first
+					if rep[i] == cd.x.py {
+						cd.x.blame = append([]string{cd.path}, cd.x.blame...)
+					} else {
+						cd.x.blame = append(cd.x.blame, cd.path)
+					}
 				}
 			}
 		}
